@@ -401,6 +401,46 @@ def iter_clone_from(fns, src, nmax, name=None):
 
 
 @guarded
+def box_ops(fns, src, nmax, which='map', name=None):
+    """`Box<GenericArray<T, N>>::map / fold` if the crate has its own body for the boxed receiver (the trait defaults go through
+    `alloc::vec::IntoIter`, std code that is trusted to drop what it still holds): the source block and its elements are accounted for on
+    every return and unwind path - the closure may panic at every call; needs_drop::<T>() symbolic."""
+    N, J = syms('N', 'J')
+    res = Result(name or 'box.' + which, ['C04', 'C16'], 'N <= %d, the closure may panic at every call' % nmax)
+    ex = Exec(fns, src, J, N, nmax=nmax)
+    ex.V = Arr('F', bv(2 ** 63))
+    t0, paths, unw = time.time(), 0, 0
+    key = ('FunctionalSequence', 'Box', which)
+    if key not in ex.index:
+        res.bounds += '; the crate has no own %s for Box<GenericArray> (trait default over alloc::vec::IntoIter)' % which
+        return finish(res, ex, t0, 0, 0)
+    A = Arr('BoxedSrc', N)
+    st = new_state()
+    bounded(ex, st, N, nmax)
+    st.pc.append((ex.SZ == 0) == z3.Or(N == 0, ex.S == 0))
+    st.status[A] = LIVE
+    blk = Block('H0', A)
+    st.blocks[blk] = 'boxed'
+    arg = BoxVal(BlockPtr(blk), init=True)
+    fn = ex.pick(ex.index[key])
+    args = [arg, Opaque('F')] if which == 'map' else [arg, Opaque('init'), Opaque('F')]
+    for (s2, kind, val) in ex.run_fn(st, fn, args):
+        paths += 1
+        unw += kind == 'unwind'
+        if kind == 'ret' and which != 'map':
+            ex.ev_extern(s2, val)
+        inA = ULT(J, N)
+        ex.require(s2, z3.BoolVal(s2.blocks.get(blk) == 'freed'), 'the heap block of the boxed source is never freed (leak)', 'end(%s)' % kind)
+        nd = ex.needs_drop.get('T', z3.BoolVal(True))
+        if kind == 'ret' or ex.feasible(s2, nd):
+            if kind != 'ret':
+                s2.pc.append(nd)      # elements without drop glue may be abandoned on unwind; the block may not
+            ex.require(s2, z3.Implies(inA, z3.Or(s2.status[A] == EXTERN, s2.status[A] == DROPPED)), 'element of the boxed source neither handed to the closure nor dropped (%s)' % ('leaked on unwind' if kind == 'unwind' else 'lost'), 'end(%s)' % kind)
+        end_checks(ex, s2, kind, val if which == 'map' else None, [], N, J)
+    return finish(res, ex, t0, paths, unw)
+
+
+@guarded
 def guard_drop(fns, src, nmax, which='ArrayConsumer', name=None):
     """Drop of the three guards at an arbitrary position p <= N: ALL N (loop-free); a destructor may panic"""
     N, P, J = syms('N', 'position', 'J')
